@@ -65,6 +65,25 @@ def gen_cases(tier):
             cfgs = [(op, order, simp) for op in ("refine", "relax") for order in ORDERS + [[5, 1, 2, 3, 4]] for simp in (False, True)]
             cases.append({"id": i + 1, "S": S, "ctx": ctx, "elim": ["y", "u"], "cfgs": rng.sample(cfgs, 10) if tier == "quick" else cfgs})
             continue
+        if i % 20 == 19:
+            # two eliminated variables whose coefficients in the term have OPPOSITE (or equal) signs, against context rows over the two whose
+            # signs are drawn independently of the term's: rows that bound x + y say nothing about x - y.  A row of the wrong shape listed
+            # before a usable one, rows that pass a sign test on ONE of their coefficients only, usable rows in either order.
+            s1, s2 = rng.choice([1, -1, 2, -2]), rng.choice([1, -1, 2, -2])
+            S = [({"x": s1, "y": s2, "z": rng.choice([1, -1])}, rng.randint(0, 6))]
+            ctx = []
+            for _ in range(rng.randint(2, 3)):
+                row = {"x": rng.choice([1, -1, 2, -2]), "y": rng.choice([1, -1, 2, -2])}
+                if rng.random() < 0.3:
+                    row["i"] = rng.choice([1, -1])
+                ctx.append((row, rng.randint(0, 5)))
+            if rng.random() < 0.5:
+                # one row per variable with the signs the term needs in one direction, after the others
+                d_ = rng.choice([1, -1])
+                ctx += [({"x": d_ * (1 if s1 > 0 else -1)}, rng.randint(1, 5)), ({"y": d_ * (1 if s2 > 0 else -1), "i": -1}, rng.randint(0, 3))]
+            cfgs = [(op, order, simp) for op in ("refine", "relax") for order in ([1], [3], [1, 2, 3, 4, 5], [3, 1], [1, 3]) for simp in (False, True)]
+            cases.append({"id": i + 1, "S": S, "ctx": ctx, "elim": ["x", "y"], "cfgs": rng.sample(cfgs, 10) if tier == "quick" else cfgs})
+            continue
         if shape >= 6:
             cases.append(tlp_case(rng, i + 1, tier) if i % 16 >= 14 else kaykobad_case(rng, i + 1, tier))
             continue
